@@ -173,7 +173,7 @@ func (s *Server) aofshrink() {
 					values = append(values, "ex",
 						strconv.FormatFloat(ex, 'f', 1, 64))
 				}
-				values = append(values, hook.Message.Args...)
+				values = append(values, shrinkHookCommand(hook)...)
 				// append the values to the aof buffer
 				aofbuf = append(aofbuf, '*')
 				aofbuf = append(aofbuf, strconv.FormatInt(int64(len(values)), 10)...)
@@ -343,4 +343,20 @@ func (s *Server) shrinkRenameCommands(d *commandDetails) [][]string {
 		return true
 	})
 	return cmds
+}
+
+// shrinkHookCommand returns the fence command of a hook for the rewritten log.
+// An area given as `GET key id` was resolved when the hook was set; the
+// object it named may have changed or gone since, and looking it up again
+// while loading would change the fence or lose the hook. It is written as
+// the geometry the hook holds.
+func shrinkHookCommand(hook *Hook) []string {
+	args := hook.Message.Args
+	n := len(args)
+	if hook.Fence == nil || hook.Fence.obj == nil || hook.Fence.roam.on ||
+		n < 4 || strings.ToLower(args[n-3]) != "get" {
+		return args
+	}
+	out := append([]string{}, args[:n-3]...)
+	return append(out, "object", string(hook.Fence.obj.AppendJSON(nil)))
 }
